@@ -259,6 +259,14 @@ func (c *Ctx) contractEffect(e *effects, ct *Contract, names calleeNames) {
 				e.streams = true
 				continue
 			}
+			if id != nil && id.Name == "memall" {
+				if t := typeOf(x.Args[0]); t != nil {
+					if sl, ok := t.Underlying().(*types.Slice); ok {
+						e.addMem(sl.Elem())
+						continue
+					}
+				}
+			}
 			if id != nil && id.Name == "mem" {
 				if t := typeOf(x.Args[0]); t != nil {
 					if sl, ok := t.Underlying().(*types.Slice); ok {
